@@ -1051,6 +1051,12 @@ class Frame(object):
         # Describe the container by the current frame. This is also needed for
         # existing Waterfalls, since derived frames (slices, de-drifted frames)
         # inherit their parent's Waterfall and its selection
+        # blimpy's band edges are half-open: the edge opposite to fch1 lies one
+        # channel beyond the last channel center
+        if self.ascending:
+            f_begin, f_end = self.fmin, self.fmax + self.df
+        else:
+            f_begin, f_end = self.fmin - self.df, self.fmax
         container_attr = {
             't_begin': 0,
             't_end': self.tchans,
@@ -1058,10 +1064,10 @@ class Frame(object):
             'n_channels_in_file': self.fchans,
             'n_ints_in_file': self.tchans,
             'file_shape': (self.tchans, 1, self.fchans),
-            'f_end': self.fmax * 1e-6,
-            'f_begin': self.fmin * 1e-6,
-            'f_stop': self.fmax * 1e-6,
-            'f_start': self.fmin * 1e-6,
+            'f_end': f_end * 1e-6,
+            'f_begin': f_begin * 1e-6,
+            'f_stop': f_end * 1e-6,
+            'f_start': f_begin * 1e-6,
             't_start': 0,
             't_stop': self.tchans,
             'selection_shape': (self.tchans, 1, self.fchans),
